@@ -5,11 +5,12 @@ from . import c16_util as U
 
 RULE = ("APIs: apis.conventional extended with a recursive tree (nested, mutually recursive part, map entry, nested enum), a type "
         "shared by two RPCs, a nested type of one request named by another request, target files that hold only top-level enums "
-        "(one named from another file), only messages, only a service, chains of enclosing closure of depth 2 and 3 in both "
+        "(one named from another file), only messages, only a service, a service in a proto sub-package next to root services (listing "
+        "root methods, sub-package methods, both), chains of enclosing closure of depth 2 and 3 in both "
         "declaration orders (a top-level message reached only as the encloser of a nested type, whose field names a nested type of "
         "the next one), resource references (type / child_type, "
         "message-level and file-level), a second service and a third file that vanish, LRO and paged RPCs, streaming RPCs; a "
-        "compute-style API with an extended-operation polling service (also with a polling chain that loops); an API using its own "
+        "compute-style API with an extended-operation polling service, REST and gRPC+asyncio (also with a polling chain that loops); an API using its own "
         "dependency package; the former DESIGN 9 no. 4 counterexample and the internal-polling one (corpus/C16, run first). Configurations: for each API subsets of RPC selectors (singletons, one "
         "whole service, all, all-but-one, half, pairs, LRO/list only) x generate_omitted_as_internal in {false,true}, plus empty "
         "list, unknown method, other-version entry, duplicate version, prefix version, two entries. A case is one (API, settings) "
@@ -34,6 +35,7 @@ ASSUMES = [
 
 SIG_NESTED = "selective.nested_enclosing_pruned"
 SIG_POLL = "selective.internal_polling_method_renamed"
+SIG_SUBPKG = "selective.subpackage_view_rejects_listed_method"
 IMPORTS = "From GV Require Import Model.Selective.\nOpen Scope list_scope."
 
 
@@ -126,11 +128,20 @@ def build_apis(ctx, n_random):
     out = [{"name": "witness", "req": U.witness_api(), "transport": "grpc", "knobs": {"witness", "cross_nested"}, "e2e": True}]
     r = env.rng("C16-ext", 0)
     out.append({"name": "extended", "req": U.extended_api(r), "transport": "rest", "knobs": {"extended_lro"}, "e2e": True})
+    rg = U.extended_api(env.rng("C16-ext", 0))
+    pg = U.target_package(rg)
+    out.append({"name": "extended-grpc", "req": rg, "transport": "grpc", "knobs": {"extended_lro", "asyncio_client"}, "e2e": True,
+                "invalid": False, "first": [[pg + ".Things.Other2"], [pg + ".Things.CreateThing"], [pg + ".ThingOperations.Other"]]})
     out.append({"name": "extended-cyclic", "req": U.extended_api(r, cyclic=True), "transport": "rest", "knobs": {"extended_lro", "polling_cycle"}, "e2e": False})
     for depth, rev in ((3, True), (2, False), (3, False)):
         rq = U.chain_api(depth, rev)
         out.append({"name": f"chain{depth}{'r' if rev else 'f'}", "req": rq, "transport": "grpc", "knobs": {"enclosing_chain", f"chain_depth={depth}"},
                     "e2e": rev or depth == 2 or ctx.tier != "quick", "invalid": rev, "first": [[U.target_package(rq) + ".Library.GetFoo"]]})
+    try:
+        rq, hints = U.subpackage_api(env.rng("C16-sub", 0))
+        out.append({"name": "subpackage", "req": rq, "transport": "grpc", "knobs": {"proto_subpackage"}, "e2e": True, "first": hints})
+    except apigen.Invalid as e:
+        ctx.oblige("the sub-package API is a valid input", False, str(e)[:300], "T1")
     try:
         req, knobs = U.dep_package_api(env.rng("C16-dep", 0))
         out.append({"name": "dep-package", "req": req, "transport": "grpc", "knobs": knobs, "e2e": False})
@@ -366,18 +377,18 @@ def schema_oracle(ctx, api, it, obs):
 
 # ------------------------------------------------------------------ library level: T1 + oracle
 def lib_package(files):
-    for n, c in files.items():
-        if n.endswith("/gapic_metadata.json"):
-            return os.path.dirname(n).replace("/", "."), json.loads(c)
-    return None, None
+    cands = sorted((n for n in files if n.endswith("/gapic_metadata.json")), key=lambda n: (n.count("/"), n))
+    if not cands:
+        return None, None
+    return os.path.dirname(cands[0]).replace("/", "."), json.loads(files[cands[0]])
 
 
 def read_manifests(files, libdir):
-    """{module: set(names)} from the types modules, with ast (fail-closed)."""
+    """{(sub-package path, module): (package, set(names))} from the types modules, with ast (fail-closed)."""
     out = {}
     for n, c in files.items():
-        m = re.fullmatch(re.escape(libdir) + r"/types/(\w+)\.py", n)
-        if not m or m.group(1) == "__init__":
+        m = re.fullmatch(re.escape(libdir) + r"/((?:\w+/)*)types/(\w+)\.py", n)
+        if not m or m.group(2) == "__init__":
             continue
         tree = ast.parse(c)
         found = None
@@ -398,7 +409,7 @@ def read_manifests(files, libdir):
                 found = (kw["package"].value, {e.value for e in elts})
         if found is None:
             raise ValueError(f"{n}: no __protobuf__ assignment")
-        out[m.group(1)] = found
+        out[(m.group(1).rstrip("/"), m.group(2))] = found
     return out
 
 
@@ -467,15 +478,26 @@ def run_library(ctx, libs):
 
 
 def _drive(root, pkg, plan):
+    """Runs the plan; calls are grouped by the Python package of their client (the root package or a proto sub-package)."""
     if not plan:
         return []
-    err = None
-    for _ in range(2):  # loopback sockets under load: one retry of the whole driver process
-        try:
-            return gen.impl("drive", {"root": root, "package": pkg, "calls": [p["spec"] for p in plan]}, timeout=300)
-        except Exception as e:  # noqa
-            err = e
-    return {"error": str(err)[-800:]}
+    groups = {}
+    for i, p in enumerate(plan):
+        groups.setdefault(p.get("pkg", pkg), []).append(i)
+    out = [None] * len(plan)
+    for gpkg, idxs in groups.items():
+        err, res = None, None
+        for _ in range(2):  # loopback sockets under load: one retry of the whole driver process
+            try:
+                res = gen.impl("drive", {"root": root, "package": gpkg, "calls": [plan[i]["spec"] for i in idxs]}, timeout=300)
+                break
+            except Exception as e:  # noqa
+                err = e
+        if res is None:
+            return {"error": str(err)[-800:]}
+        for i, rec in zip(idxs, res):
+            out[i] = rec
+    return out
 
 
 def drive_plan(lb):
@@ -508,17 +530,21 @@ def drive_plan(lb):
         else:
             msg = dy.random(r, inp, fill=0.8)
         b64 = dyn.Dyn.b64(msg)
-        rel = inp[len(fp.package) + 1:] if inp.startswith(fp.package + ".") else None
-        if rel is None:
+        ifp = ref.file_of.get(inp)
+        if ifp is None or not ifp.package.startswith(pkg) or not inp.startswith(ifp.package + "."):
             continue  # request type outside the target package (not generated by these APIs)
+        rel = inp[len(ifp.package) + 1:]
+        tpkg = lb["libpkg"] + ifp.package[len(pkg):]          # types package of the (sub-)package declaring the request
+        cpkg = lb["libpkg"] + fp.package[len(pkg):]           # package holding the client of this service
+        unary = "_unary" if api["transport"] != "rest" and m.options.Extensions[U.ex_pb2.operation_service] else ""
         spec = {"service_module": U.snake(s.name), "client": ("Base" if svc_unlisted else "") + s.name + "Client",
-                "transport": api["transport"], "method": ("_" if m_unlisted else "") + U.snake(m.name)}
+                "transport": api["transport"], "method": ("_" if m_unlisted else "") + U.snake(m.name) + unary}
         if m.client_streaming:
-            spec["request"] = {"mode": "stream", "cls": f"{lb['libpkg']}.types:{rel}", "stream": [b64]}
+            spec["request"] = {"mode": "stream", "cls": f"{tpkg}.types:{rel}", "stream": [b64]}
         else:
-            spec["request"] = {"mode": "message", "cls": f"{lb['libpkg']}.types:{rel}", "b64": b64}
+            spec["request"] = {"mode": "message", "cls": f"{tpkg}.types:{rel}", "b64": b64}
         spec["consume"] = "stream" if m.server_streaming else "value"
-        plan.append({"addr": addr, "spec": spec})
+        plan.append({"addr": addr, "spec": spec, "pkg": cpkg})
     return plan
 
 
@@ -559,7 +585,9 @@ def library_oracle(ctx, lb, full):
         return
     if not lb["gen_ok"]:
         kind = gen.error_kind(lb["stderr"])
-        ctx.violation(f"generation failed for valid selective settings: {kind}: {lb['stderr'][-300:]}", case)
+        has_sub = any(fp.package.startswith(pkg) and fp.package != pkg for fp in api["req"].proto_file)
+        sig = SIG_SUBPKG if kind == "ClientLibrarySettingsError" and has_sub and "Method does not exist" in lb["stderr"] else None
+        ctx.violation(f"generation failed for valid selective settings: {kind}: {lb['stderr'][-300:]}", case, sig)
         return
     insp = lb.get("inspect")
     if not insp or not insp.get("ok"):
@@ -603,18 +631,29 @@ def library_oracle(ctx, lb, full):
         if cname not in mod["classes"] or (api["transport"] != "rest" and aname not in mod["classes"]):
             ctx.violation(f"client classes of {sname}: {mod['classes']} (expected {cname})", case)
             continue
-        attrs = set(mod["attrs"].get(cname, []))
-        for a in maddrs:
-            sn = U.snake(a.rsplit(".", 1)[1])
-            pub, priv = sn in attrs, "_" + sn in attrs
-            if a not in kept:
-                ok = not pub and not priv
-            elif internal and a not in listed:
-                ok = priv and not pub
-            else:
-                ok = pub and not priv
-            if not ok:
-                ctx.violation(f"client {cname}: RPC {a} kept={a in kept} listed={a in listed} but public={pub} underscore={priv}", case)
+        # the method names each client exposes for the RPCs of the service. An extended-operation RPC (annotated with
+        # google.cloud.operation_service) appears as <name>_unary in both clients and also as <name> (the wrapper that
+        # returns an ExtendedOperation) in the sync client; an unlisted RPC under generate_omitted_as_internal has every
+        # one of its names prefixed with an underscore; an RPC that is not kept has none of them.
+        for cls, is_async in ((cname, False), (aname, True)):
+            if cls not in mod["classes"]:
+                continue
+            attrs = set(mod["attrs"].get(cls, []))
+            for a in maddrs:
+                sn = U.snake(a.rsplit(".", 1)[1])
+                ext = bool(ref.methods[a][2].options.Extensions[U.ex_pb2.operation_service])
+                shapes = ([sn + "_unary"] if is_async else [sn, sn + "_unary"]) if ext else [sn]
+                cands = {x for b in (sn, sn + "_unary") for x in (b, "_" + b)}
+                if a not in kept:
+                    want = set()
+                elif internal and a not in listed:
+                    want = {"_" + x for x in shapes}
+                else:
+                    want = set(shapes)
+                got = attrs & cands
+                if got != want:
+                    ctx.violation(f"client {cls}: RPC {a} (kept={a in kept}, listed={a in listed}, extended operation={ext}) is exposed as "
+                                  f"{sorted(got)}; expected {sorted(want)}", case)
     # --- kept RPCs behave as in the full library
     if full is None or "drive" not in full or "drive" not in lb:
         ctx.oblige(f"{api['name']} [{lb['label']}]: kept RPCs were driven in both libraries", False, "no drive result", "T1")
@@ -661,7 +700,8 @@ def library_t1(ctx, lb, per_api_graph):
         ctx.oblige(f"{lab}: T1 extraction of types manifests", False, repr(e), "T1")
         return []
     tfiles = [f for f in graph["files"] if f["target"]]
-    mod_of = {os.path.basename(f["name"])[:-len(".proto")]: f for f in tfiles}
+    pkg_of_file = {fp.name: fp.package for fp in api["req"].proto_file}
+    mod_of = {(pkg_of_file[f["name"]][len(pkg):].strip(".").replace(".", "/"), os.path.basename(f["name"])[:-len(".proto")]): f for f in tfiles}
     ch.append((f"{lab}: emitted types modules = target files left by the model",
                f"set_eqb (map o_name (filter o_target (built {O}))) {coq.slist(mod_of[m]['name'] for m in man if m in mod_of)} && "
                f"Nat.eqb (length (filter o_target (built {O}))) {len(man)}"))
@@ -671,7 +711,7 @@ def library_t1(ctx, lb, per_api_graph):
             continue
         fq = [f"{ppkg}.{n}" for n in sorted(names)]
         FO = f"(find_ofile (built {O}) {coq.s(mod_of[m]['name'])})"
-        ch.append((f"{lab}: manifest of types/{m}.py", f"match {FO} with Some o => set_eqb (o_top_enums o ++ map m_addr (o_top o)) {coq.slist(fq)} | None => false end"))
+        ch.append((f"{lab}: manifest of {'/'.join(x for x in m if x)} (types module)", f"match {FO} with Some o => set_eqb (o_top_enums o ++ map m_addr (o_top o)) {coq.slist(fq)} | None => false end"))
     # gapic_metadata.json
     meta = lb.get("meta") or {}
     obs = []
@@ -715,6 +755,8 @@ def run(ctx):
             nv, nb = ctx.n(4, 8), ctx.n(1, 2)
             if api["name"] in ("witness", "extended", "extended-cyclic"):
                 nv = ctx.n(2, 4)
+            if api["name"] == "extended-grpc":
+                nv = 0
             if api["name"].startswith("chain"):
                 nv = 0
             nv += 2 * len(api.get("first", ()))
